@@ -224,6 +224,17 @@ func ModelSortSliceStable(x interface{}, less func(i, j int) bool) {
 	}
 }
 
+// ModelAfterFunc is what the executor runs in place of time.AfterFunc: a goroutine that waits for a
+// timer of the executor's timer model and then calls f.
+func ModelAfterFunc(d time.Duration, f func()) *time.Timer {
+	t := time.NewTimer(d)
+	go func() {
+		<-t.C
+		f()
+	}()
+	return t
+}
+
 // ModelSliceIsSorted is what the executor runs in place of sort.SliceIsSorted.
 func ModelSliceIsSorted(x interface{}, less func(i, j int) bool) bool {
 	n := SliceLen(x)
